@@ -15,7 +15,7 @@ import re
 from typing import Any
 
 from . import isa
-from .absint import AbsEval, Obj, Raised, Unknown, raised
+from .absint import AbsEval, Obj, Raised, Unknown, raised, symbols_of
 from .bits import BitVec
 from .core import REPO, AnalysisError
 from .isa_abs import AbsEncoder, IsaAbs
@@ -153,12 +153,18 @@ class AsmAbsEval(AbsEval):
 
     def e_Compare(self, n: ast.Compare) -> Any:
         # ordering of a bit-vector against a constant, decided from the known bits (e.g. a 16-bit literal <= 0xFFFF)
+        if len(n.ops) == 2 and all(isinstance(o, (ast.Lt, ast.LtE, ast.Gt, ast.GtE)) for o in n.ops):
+            mid = n.comparators[0]
+            first = ast.copy_location(ast.Compare(left=n.left, ops=[n.ops[0]], comparators=[mid]), n)
+            second = ast.copy_location(ast.Compare(left=mid, ops=[n.ops[1]], comparators=[n.comparators[1]]), n)
+            return self.e_Compare(first) and self.e_Compare(second)
         if len(n.ops) == 1 and isinstance(n.ops[0], (ast.Lt, ast.LtE, ast.Gt, ast.GtE)):
             a, b = self.eval(n.left), self.eval(n.comparators[0])
-            if (isinstance(a, BitVec) and not a.is_const()) or (isinstance(b, BitVec) and not b.is_const()):
+            from .bits import Lin
+            if (isinstance(a, BitVec) and not a.is_const()) or (isinstance(b, BitVec) and not b.is_const()) or isinstance(a, Lin) or isinstance(b, Lin):
                 ra, rb = _range(a), _range(b)
                 if ra is None or rb is None:
-                    raise Unknown(f"ordering on a symbolic value at {self.where(n)}")
+                    raise Unknown(f"ordering on a symbolic value at {self.where(n)}", symbols_of(a, b))
                 op = n.ops[0]
                 poss = set()
                 for x in (ra[0], ra[1]):
@@ -166,7 +172,7 @@ class AsmAbsEval(AbsEval):
                         poss.add({ast.Lt: x < y, ast.LtE: x <= y, ast.Gt: x > y, ast.GtE: x >= y}[type(op)])
                 if len(poss) == 1:
                     return poss.pop()
-                raise Unknown(f"ordering on a symbolic value is not decided by its width at {self.where(n)}: {ast.unparse(n)}")
+                raise Unknown(f"ordering on a symbolic value is not decided by its width at {self.where(n)}: {ast.unparse(n)}", symbols_of(a, b))
         return super().e_Compare(n)
 
     def _absbuiltin(self, name: str, args: list, kwargs: dict, n: ast.AST | None) -> Any:
@@ -218,8 +224,18 @@ class AsmAbsEval(AbsEval):
 
 
 def _range(v: Any) -> tuple[int, int] | None:
+    from .bits import Lin
     if isinstance(v, bool):
         return None
+    if isinstance(v, Lin):
+        lo = hi = v.c
+        for k, bv in v.terms:
+            r = _range(bv)
+            if r is None:
+                return None
+            lo += min(k * r[0], k * r[1])
+            hi += max(k * r[0], k * r[1])
+        return (lo, hi)
     if isinstance(v, int):
         return (v, v)
     if isinstance(v, BitVec):
